@@ -72,7 +72,10 @@ func (d *defineBuiltinMethod) defineBuiltinInstanceMethod(
 	methodT.DefinedClass = d.targetClass
 	methodT.IsStatic = false
 
-	existingT := base.GetMethodT(frame, d.targetClass, method, false)
+	// a second declaration of the class's own method is an overload; a method
+	// of the same name that an ancestor declares is overridden, whichever file
+	// happened to be loaded first
+	existingT := base.GetOwnMethodT(frame, d.targetClass, method, false)
 
 	if existingT != nil {
 		existingT.Overloads = append(existingT.Overloads, *methodT)
@@ -115,7 +118,7 @@ func (d *defineBuiltinMethod) defineBuiltinStaticMethod(
 		base.CalculateFrame(frame, d.targetClass) + "::" + method,
 	)
 
-	existingT := base.GetClassMethodT(frame, d.targetClass, method, false)
+	existingT := base.GetOwnMethodT(frame, d.targetClass, method, true)
 
 	if existingT != nil {
 		existingT.Overloads = append(existingT.Overloads, *methodT)
